@@ -105,8 +105,24 @@ func init() {
 	type H = intrinsicFn
 	// ---- fmt: formatted text is an opaque placeholder (messages are not the subject)
 	registerIntrinsic("fmt.Sprintf", func(ex *Exec, fr *Frame, fn *ssa.Function, a []Value, site ssa.Instruction) Value {
+		if ex.exactFmt && !ex.intMode && ex.specDepth == 0 {
+			// vxExactFormat(): formatting is the subject of this harness
+			if fs, ok := a[0].(StringV); ok {
+				if format, ok := concreteString(fs); ok {
+					if sl, ok := a[1].(SliceV); ok {
+						if bytes, ok := fmtSymbolic(ex, format, ex.sliceElems(sl)); ok {
+							return StringV{B: bytes}
+						}
+					}
+				}
+			}
+		}
 		return fmtPlaceholder(ex, a, 0)
 	})
+	vxAPI["vxExactFormat"] = func(ex *Exec, fr *Frame, fn *ssa.Function, args []Value, site ssa.Instruction) Value {
+		ex.exactFmt = true
+		return nil
+	}
 	registerIntrinsic("fmt.Sprint", func(ex *Exec, fr *Frame, fn *ssa.Function, a []Value, site ssa.Instruction) Value {
 		return ex.strConst("<fmt.Sprint>")
 	})
@@ -350,7 +366,7 @@ func init() {
 }
 
 // ---- fmt.Fprintf into a *strings.Builder where formatting IS the subject (inspect output):
-// literal text, %%, %s and %x/%X with an explicit zero-padded width on symbolic integers.
+// literal text, %%, %s, %x/%X (plain or with a zero-padded width) and %d / %Nd / %0Nd on symbolic integers.
 func fmtSymbolic(ex *Exec, format string, elems []Value) ([]*Term, bool) {
 	var out []*Term
 	k := 0
@@ -455,6 +471,34 @@ func fmtSymbolic(ex *Exec, format string, elems []Value) ([]*Term, bool) {
 					ex.ts.BVBin("bvadd", n8, ex.ts.BVConst(8, uint64(letter)-10)))
 				out = append(out, digit)
 			}
+		case 'd':
+			v, ok := iv.V.(*Term)
+			if !ok || v.Sort.K != SBV || width > 32 {
+				return nil, false
+			}
+			b, isBasic := iv.T.Underlying().(*types.Basic)
+			if !isBasic || b.Info()&types.IsInteger == 0 {
+				return nil, false
+			}
+			digits, neg := fmtDecimal(ex, v, b.Info()&types.IsUnsigned == 0)
+			n := len(digits)
+			if neg {
+				n++
+			}
+			if !zero {
+				for ; n < width; n++ {
+					out = append(out, ex.byteConst(' '))
+				}
+			}
+			if neg {
+				out = append(out, ex.byteConst('-'))
+			}
+			if zero {
+				for ; n < width; n++ {
+					out = append(out, ex.byteConst('0'))
+				}
+			}
+			out = append(out, digits...)
 		default:
 			return nil, false
 		}
@@ -463,6 +507,70 @@ func fmtSymbolic(ex *Exec, format string, elems []Value) ([]*Term, bool) {
 		return nil, false
 	}
 	return out, true
+}
+
+// fmtDecimal: the decimal digits (as ASCII byte terms, most significant first) of a symbolic
+// integer and its sign. One path per sign and per digit count; on each path the digits are fresh
+// variables d_i in [0,9] tied to the magnitude by the linear equation sum d_i*10^i = |v|, which has
+// exactly one solution, so nothing about v is assumed. The arithmetic is done at the narrowest of
+// 16/32/64 bits that holds 10^digits (no division, no wide multiplication).
+func fmtDecimal(ex *Exec, v *Term, signed bool) (digits []*Term, neg bool) {
+	ts := ex.ts
+	w := v.Sort.W
+	mag := v
+	if signed {
+		isNeg := ts.BVCmp("bvslt", v, ts.BVConst(w, 0))
+		if ex.decide([]*Term{ts.Not(isNeg), isNeg}, "fmt %d sign") == 1 {
+			neg = true
+			mag = ts.BVNeg(v)
+		}
+	}
+	maxDigits := 1
+	for p := big.NewInt(10); p.BitLen() <= w; p.Mul(p, big.NewInt(10)) {
+		maxDigits++
+	}
+	pow := func(k int) *big.Int { return new(big.Int).Exp(big.NewInt(10), big.NewInt(int64(k)), nil) }
+	conds := make([]*Term, maxDigits)
+	for d := 1; d <= maxDigits; d++ {
+		c := ts.True()
+		if d > 1 {
+			c = ts.BVCmp("bvuge", mag, ts.BVBig(w, pow(d-1)))
+		}
+		if d < maxDigits {
+			c = ts.And(c, ts.BVCmp("bvult", mag, ts.BVBig(w, pow(d))))
+		}
+		conds[d-1] = c
+	}
+	nd := 1 + ex.decide(conds, "fmt %d digit count")
+	ww := 64
+	switch {
+	case nd <= 4 && w >= 16:
+		ww = 16
+	case nd <= 9 && w >= 32:
+		ww = 32
+	}
+	if ww > w {
+		ww = w
+	}
+	low := mag
+	if ww < w {
+		low = ts.Extract(ww-1, 0, mag)
+	}
+	if pow(nd).BitLen() > ww {
+		// the digit sum could wrap around at this width (20 digits at 64 bits): add headroom
+		ww += 8
+		low = ts.ZeroExt(low, ww)
+	}
+	sum := ts.BVConst(ww, 0)
+	digits = make([]*Term, nd)
+	for i := 0; i < nd; i++ {
+		d := ex.freshVar("fmt.digit", BV(8))
+		ex.assertPC(ts.BVCmp("bvule", d, ts.BVConst(8, 9)))
+		digits[nd-1-i] = ts.BVBin("bvadd", d, ts.BVConst(8, '0'))
+		sum = ts.BVBin("bvadd", sum, ts.BVBin("bvmul", ts.ZeroExt(d, ww), ts.BVBig(ww, pow(i))))
+	}
+	ex.assertPC(ts.Eq(sum, low))
+	return digits, neg
 }
 
 func init() {
